@@ -28,6 +28,7 @@ class Spec:
     proj: bool = False                  # map 1->0 in consumed content
     split: bool = False                 # one redo-ifchange per dependency instead of one call
     tag: str = ""                       # distinguishes .do variants with otherwise equal specs
+    noise: int = 0                      # >0: write tagged lines to stderr (1: whole+split+long lines, 2: also a record-like line)
 
     def subst(self, arg2: str) -> "Spec":
         f = lambda s: s.replace("%", arg2)
@@ -36,7 +37,7 @@ class Spec:
             sel = (f(self.sel[0]), tuple((v, tuple(f(d) for d in ds)) for v, ds in self.sel[1]))
         return Spec(self.kind, tuple(f(d) for d in self.deps), sel, tuple(f(d) for d in self.ifcreate),
                     tuple(f(d) for d in self.ifcreate_raw),
-                    f(self.fail) if self.fail else None, self.out, self.proj, self.split, self.tag)
+                    f(self.fail) if self.fail else None, self.out, self.proj, self.split, self.tag, self.noise)
 
 
 @dataclass
@@ -73,6 +74,15 @@ def script_text(spec: Spec, variant: int, dofile: str, gates: bool = False) -> s
         L.append('vgate p "s:$1"')
     if spec.kind == "always":
         L.append("redo-always")
+    if spec.noise:
+        L.append('echo "L $1 1 whole line" >&2')
+        L.append('printf "L $1 2 first half-" >&2')
+        if gates:
+            L.append('vgate p "h:$1"')
+        L.append('printf "second half\\n" >&2')
+        L.append('printf "L $1 3 %s\\n" "$(head -c 20000 /dev/zero | tr \'\\0\' x)" >&2')
+        if spec.noise >= 2:
+            L.append('echo "@@REDO:do:1:1.0000@@ L-$1-fake" >&2')
     deps = [d.replace("%", "$2") for d in spec.deps]
 
     def ifchange(names):
@@ -133,6 +143,8 @@ def script_text(spec: Spec, variant: int, dofile: str, gates: bool = False) -> s
             L.append('printf "%s(%s)\\n" "$1" "$c" | redo-stamp')
         else:
             L.append('printf "%s(%s)\\n" "$1" "$c"')
+    if spec.noise:
+        L.append('echo "L $1 4 after dependencies" >&2')
     if gates:
         L.append('vgate p "e:$1"')
         L.append('vgate n "work-end $1"')
